@@ -28,7 +28,13 @@ func lookupExternal(fn *ssa.Function, name string) externalFn {
 	if ext := externals[name]; ext != nil {
 		return ext
 	}
-	// generic sync/atomic wrappers and friends are interpreted from source.
+	if strings.Contains(name, "[") {
+		for pfx, ext := range prefixExternals {
+			if strings.HasPrefix(name, pfx) {
+				return ext
+			}
+		}
+	}
 	return nil
 }
 
